@@ -309,7 +309,14 @@ func runCase(ep *endpoint, srv *scripted, c scase, measureLeak bool) outcome {
 			call = func() { viaN, req, res, err = via.unary(ep.typed[c.Via], ctx, n, opts...) }
 		}
 		if !within(opTimeout, call) {
+			// the call is still blocked: what the caller did so far (request handed over, its context ended from the
+			// side / by its deadline while the handler was parked) and then the hang
 			out.timedOut = true
+			if abortOp != 0 && ctx.Err() != nil && cl.parked.Load() {
+				ev("ok")
+				ev("cl")
+				ev(string(abortOp))
+			}
 			ev("TO")
 		} else {
 			out.sentReq = append(out.sentReq, req)
@@ -329,6 +336,9 @@ func runCase(ep *endpoint, srv *scripted, c scase, measureLeak bool) outcome {
 			ev("h" + canonMD(hdr))
 			if abortOp == 0 || wantTrailer {
 				ev("t" + canonMD(trl))
+			}
+			if abortOp == 'd' && !cl.parked.Load() {
+				out.skip = true // the deadline passed before the handler had got to its parking op (loaded machine)
 			}
 		}
 	} else {
